@@ -17,6 +17,27 @@ CHECKS = {
   text="Same inductive step as C08 with two symbolic content bytes per dataset flowing through the real Disk._page_out/_page_in: bytes under a key equal the bytes written whenever a get is granted or the data sits on disk; get is never granted before the writer closed; no unlink/page-out while a reader younger than STALE_READ holds the dataset; purge during a read is delayed and applied by the last close; the page-out lock is never left held without an outstanding job. Bounded liveness: from any valid quiescent state in which idle datasets can make room, a request is granted within 5 retries under fair completion of disk jobs.",
   note="Trusted: as C08. Content model is (declared size, first two bytes) with single-chunk file reads. Liveness excludes failed disk jobs."),
 }
+
+CTRL_NOTE = "Trusted: z3/CrossHair; the SimCluster contract (FIFO per executor channel and per data-server channel, purge immediate, worker starts only when inputs are in its host store, redundant transfer unannounced) which stands in for Bridge+executors+data servers; task bodies are uninterpreted term constructors. Outside: more tasks or free scheduling decisions than the bound, real sockets/processes, memory pressure."
+CHECKS.update({
+ "C01": dict(category="other", design_ref="DESIGN.md §4 C01",
+  technique="solver-driven exhaustive path exploration (CrossHair/z3) of the real controller+scheduler+runner against a simulated cluster",
+  text="The real controller loop (impl.run, notify, act, scheduler.api/assign/graph) and the real worker-side task execution (RunnerContext.project, runner.run, Memory, serde) run against SimCluster. DAG shape (<=3 tasks quick, <=4 thorough; positional/keyword/multi edges, 1-2 outputs), requested outputs, cluster shape and the first K scheduling decisions (which task body / transfer / fetch runs next, which channel delivers next, how events are batched) are decision variables; the decision tree is explored until CrossHair reports it exhausted. On every path: the outputs delivered are exactly the requested ones and each equals the term a 15-line sequential evaluator computes.", note=CTRL_NOTE),
+ "C02": dict(category="other", design_ref="DESIGN.md §4 C02",
+  technique="solver-driven exhaustive path exploration (CrossHair/z3) of the real controller against a simulated cluster with a dispatch monitor",
+  text="Same exploration as C01 with GPU flags; a monitor inside the simulated executor checks at every dispatch: worker exists, has no unfinished sequence, satisfies the GPU requirement, task never dispatched before, every consumed dataset exists somewhere and is on the target host or a transfer to it is outstanding; at the end every task was dispatched exactly once.", note=CTRL_NOTE + " The worker-side wake-up logic of entrypoint is covered by a separate harness when built."),
+ "C03": dict(category="other", design_ref="DESIGN.md §4 C03",
+  technique="solver-driven exhaustive path exploration (CrossHair/z3) of the real controller: bounded liveness monitors",
+  text="Same exploration. The simulated bridge raises if the controller waits while nothing is outstanding or pending work can never become enabled; a counter around plan bounds the scheduling rounds; any exception escaping run is a bookkeeping crash. On return all tasks ran, all requested outputs have values and shutdown was called once. Includes the empty job, isolated tasks and more components than hosts.", note=CTRL_NOTE + " Fairness = every pending action eventually executes (default tail)."),
+ "C04": dict(category="other", design_ref="DESIGN.md §4 C04",
+  technique="solver-driven exhaustive path exploration (CrossHair/z3) of the real controller with a ground-truth data monitor",
+  text="Same exploration with a monitor on every purge/transmit/fetch against the simulator's ground truth: purge only of data held, after every consumer ran, after a requested value reached the caller, with no transfer/fetch from that host outstanding; transmit/fetch only from a host that holds the dataset, both when commanded and when executed.", note=CTRL_NOTE),
+ "C17": dict(category="other", design_ref="DESIGN.md §2 E2, §4 C17", engine="E2-smt",
+  technique="cascade/shm/api.py translated from its AST to SMT (z3): per message class, unsat of 'domain value rejected' and of 'accepted but decodes differently', integers and string lengths unbounded",
+  text="Every class in cascade.shm.api.b2c: its ser/deser (and the top-level tag dispatch) are symbolically evaluated from the current source into z3 Int / Seq(Int) terms. Two obligations per class are discharged by z3: every field value of the admitted domain (sizes 0..2^63, ASCII strings, enum members) is accepted by the encoder; everything the encoder accepts decodes to the same class with equal fields (so nothing is silently truncated). The translator is validated on literal messages against the real api.ser/deser byte for byte.",
+  note="Trusted: z3 (Int + Seq theories), the base-256 digit lemma (discharged as a bit-vector query per width), is_ascii as an uninterpreted predicate. Executor/gateway/report/job-JSON encodings go through pickle/orjson/pydantic (C code) and are outside this engine."),
+})
+
 NA_REASON = "check not built yet in this round (planned, see DESIGN.md §4); not claimed until its harness exists and passes on the unchanged tree"
 
 def main():
@@ -46,6 +67,7 @@ def main():
             "add_only": True,
         },
         "engines": [
+            {"name": "E2-smt", "path": "vf/engine_smt.py", "serves_properties": ["C17"], "kind_free_text": "AST -> z3 translation of cascade/shm/api.py, regenerated from the current source at every run"},
             {"name": "E1-crosshair", "path": "vf/engine_xh.py", "serves_properties": [p for p in ALL if p in CHECKS and CHECKS[p].get("engine","E1-crosshair")=="E1-crosshair"],
              "kind_free_text": "CrossHair 0.0.110 driven as a library (StateSpace/RootNode path tree, z3 deciding every branch) over the real functions; exhaustion of the decision tree within stated bounds"},
         ],
